@@ -9,7 +9,8 @@
 (* (region 3, in session 2, is in the SAME simulator as region 1: same       *)
 (* circuit address, another seed)                                           *)
 (* owns a family of URLs  a < ax (prefix-related), b, c, tx and one-shot    *)
-(* URLs t (< tx) and at (> a); asset URL g is shared, rg region-specific.   *)
+(* URLs t (< tx) and at (> a); asset URL g is on a CDN host shared by all   *)
+(* regions, rg / rh are on the simulator's host (other port / seed's port). *)
 (* Wrapper and proxy-only URLs are chosen by the proxy: they are symbols   *)
 (* ("?W..", "?P..") that the harness binds to the observed URL.            *)
 (*                                                                         *)
@@ -23,7 +24,7 @@ EXTENDS Naturals, Sequences, FiniteSets, TLC
 CONSTANTS NR,        \* regions 1..NR; 1 and 2 belong to session 1, the others to session 2
           MaxSeed,   \* seed exchanges explored in one behaviour
           MaxTemp,   \* live one-shot caps per region
-          Grants,    \* which grant templates the simulators use (subset of 1..9)
+          Grants,    \* which grant templates the simulators use (subset of 1..10)
           PO,        \* proxy-only cap names addons register (subset of {"ProxyP", "ProxyQ"})
           Wants,     \* which request lists the viewer uses (subset of 1..7)
           TN         \* names one-shot caps are registered under (subset of {"UpTemp", "CapB"}: a name of
@@ -49,7 +50,8 @@ UrlAx(r) == U(r, "a") \o <<"x">>
 UrlB(r) == U(r, "b")
 UrlC(r) == U(r, "c")
 AssetG == <<"g">>
-AssetR(r) == U(r, "g")
+AssetR(r) == U(r, "g")                      \* region-specific asset URL: the simulator's host, another port
+AssetS(r) == U(r, "h")                      \* region-specific asset URL on the Seed cap's own host:port
 (* one-shot URLs: t stands alone but is EXTENDED BY the grantable URL tx; at EXTENDS the grantable *)
 (* URL a (an uploader URL underneath the URL of the cap that created it)                         *)
 UrlT(r) == U(r, "t")
@@ -74,6 +76,8 @@ T(r, i) ==
       [] i = 8 -> ("CapA" :> UrlC(r))          \* with 1 / 2, used repeatedly: re-grants of an EARLIER URL
                                                \* of the same name (a c a, a c a c, a ax a ..)
       [] i = 9 -> ("CapB" :> UrlTx(r))         \* a granted URL that extends a one-shot URL
+      [] i = 10 -> ("GetMesh" :> AssetS(r)) @@ ("ViewerAsset" :> AssetR(r)) @@ ("CapA" :> UrlA(r))
+                                               \* asset caps served by the simulator itself (CDN host: 5, 6)
 
 (***************************** queries *************************************)
 EntriesOf(c) == UNION {{[r |-> rn[1], n |-> rn[2], t |-> c[rn[1]][rn[2]][i].t, u |-> c[rn[1]][rn[2]][i].u] :
@@ -205,7 +209,7 @@ ResolveTemp(q) ==
     /\ UNCHANGED <<pend, nseed, firstP, treg>>
 
 Next == \/ \E r \in Regions : \/ \E w \in 1..7 : SeedReq(r, w)
-                              \/ \E i \in 1..9 : SeedResp(r, i)
+                              \/ \E i \in 1..10 : SeedResp(r, i)
                               \/ \E u \in TempUrls(r) : \E n \in TempNames : RegisterTemp(r, u, n)
                               \/ \E n \in PONameSet : RegisterProxy(r, n)
         \/ \E q \in TempReqs : ResolveTemp(q)
@@ -223,7 +227,7 @@ Attributed ==
 (* ... and nothing else resolves *)
 OnlyGranted ==
     LET E == EntriesOf(caps) IN
-    \A r \in Regions : \A u \in {UrlA(r), UrlAx(r), UrlB(r), UrlC(r), UrlTx(r), AssetR(r), AssetG} \cup TempUrls(r) :
+    \A r \in Regions : \A u \in {UrlA(r), UrlAx(r), UrlB(r), UrlC(r), UrlTx(r), AssetR(r), AssetS(r), AssetG} \cup TempUrls(r) :
         (\A e \in E : ~IsPre(e.u, u)) => AccIn(E, u) = {None4} /\ AccIn(E, Ext(u)) = {None4}
 (* lookup by name yields the most recently granted / registered URL that has not been used up:   *)
 (* judged against the registration history (hist), not against the list the model keeps         *)
@@ -262,7 +266,7 @@ SeedRespOK ==
 ProxyStable == \A r \in Regions : \A n \in PONameSet : firstP[r][n] # NoUrl => OutRegisterProxy(r, n) = firstP[r][n]
 
 (***************************** observation (binding) ***********************)
-StaticUrls == UNION {{SeedUrl(r), UrlA(r), UrlAx(r), UrlB(r), UrlC(r), UrlTx(r), AssetR(r)} \cup TempUrls(r) : r \in Regions}
+StaticUrls == UNION {{SeedUrl(r), UrlA(r), UrlAx(r), UrlB(r), UrlC(r), UrlTx(r), AssetR(r), AssetS(r)} \cup TempUrls(r) : r \in Regions}
                  \cup {AssetG}
 ReqsIn(E) == LET base == StaticUrls \cup {e.u : e \in E}
              IN base \cup {Ext(u) : u \in base} \cup {<<"zz">>}
